@@ -78,7 +78,7 @@ CLAIMS = {
              'Lemmas.Cache.all_cons of all 15 interpreter functions - every name resolves exactly as before the block), tag_lookup_calls / '
              'tag_lookup_renders_template / expr_lookup_does_not_call; InstanceDict.__getitem__ is TRANSLATED from /repo on every '
              'run (harness/trans_ns.py -> GenNs.lean) and proved equal to the model\'s instance lookup '
-             '(gen_instancedict_getitem_is_model), and so are TemplateDict.getitem (gen_templatedict_getitem_is_model) and String.__call__ (harness/trans_call.py -> GenCall.lean: gen_call_is_topCall - a new namespace is exactly callStack, the order lookup_precedence is about - and gen_call_is_callSub). Correspondence: results and call traces; oracle: winner '
+             '(gen_instancedict_getitem_is_model), and so are TemplateDict.getitem (gen_templatedict_getitem_is_model) and String.__call__ (harness/trans_call.py -> GenCall.lean: gen_call_is_topCall - a new namespace is exactly callStack, the order lookup_precedence is about - and gen_call_is_callSub); TemplateDict.__getitem__, __contains__ / has_key and __len__ are TRANSLATED too (harness/trans_stack.py -> GenStack.lean: gen_subscript_is_model, gen_contains_is_model, gen_has_key_is_model = Render.hasKey, has_key_agrees_with_getitem, gen_len_is_model). Correspondence: results and call traces; oracle: winner '
              'computed from the documented order over all 128 source subsets x {plain, callable, template} (+ private names), '
              'scope-stack evaluator over random nestings of let/with/in/if/try-except with probes before/inside/after, '
              'name-vs-expression forms, re-entered templates under shadowing blocks',
@@ -241,7 +241,7 @@ CLAIMS = {
                   'correspondence on the guard log + marker non-interference oracle',
         ref='DESIGN.md §5 C05'),
     'C08': dict(
-        text='String.__call__ is TRANSLATED from /repo on every run (GenCall.callGen) and proved equal to callSub, the template call whose stack / level restoration is proved (gen_template_call_is_model). Let.render and With.render (their push / try / finally-pop frames) are TRANSLATED from /repo on every run (GenRender.letBlockGen / withBlockGen) and proved equal to the interpreter\'s let_ / with_ cases (gen_let_block_is_model, gen_with_block_is_model). Lean 4 theorems about the interpreter model (Render.lean: namespace stack, lookups with auto-call, '
+        text='String.__call__ is TRANSLATED from /repo on every run (GenCall.callGen) and proved equal to callSub, the template call whose stack / level restoration is proved (gen_template_call_is_model). Let.render and With.render (their push / try / finally-pop frames) are TRANSLATED from /repo on every run (GenRender.letBlockGen / withBlockGen) and proved equal to the interpreter\'s let_ / with_ cases (gen_let_block_is_model, gen_with_block_is_model). TemplateDict.__init__, _push and _pop are TRANSLATED from /repo on every run (harness/trans_stack.py -> GenStack.lean; _data has the top last, the model\'s stack the top first: absStack) and proved to be the model\'s empty namespace, cons and drop (gen_init_is_model, gen_push_is_model, gen_pop_is_model for 1 <= k <= size, gen_push_pop_restores, gen_pres_push_pop / gen_pres_push_popn = pres_push_pop / pres_push_popn stated with the operations of the source). Lean 4 theorems about the interpreter model (Render.lean: namespace stack, lookups with auto-call, '
              'expressions, every block tag, sub-template calls, dtml-return, exceptions, fault plans as part of the '
              'environment), proved by mutual induction on the evaluation for ALL programs, namespaces and fault plans: '
              'block_preserves_stack, render_preserves_stack, subtemplate_preserves_stack, lookup_preserves_stack, '
